@@ -446,6 +446,14 @@ class ChildWorld:
             ev["data_units"] = str(tr.data.units)
             ev["seed"] = int(tr.script.rng_seed)
             ev["nsamples"] = int(tr.nsamples())
+            try:
+                # what the accessors say about the same array: system-wide trajectory of the first species, local
+                # trajectory of the last species in the last cell (values and units)
+                g_ = tr.get_trajectory(0, merge=True)
+                l_ = tr.get_trajectory(tr.nspecies() - 1, position=tr.ncells() - 1)
+                ev["acc"] = [g_.value.tobytes(), str(g_.units), l_.value.tobytes(), str(l_.units)]
+            except Exception as e_:
+                ev["acc_exc"] = repr(e_)
             ev.update(self.raw_output())
             if len(op) > 1:
                 self.kept[op[1]] = tr
@@ -521,6 +529,18 @@ class ChildWorld:
             ev["calls"] = self.clock.calls
             if len(op) > 2:
                 self.kept[op[2]] = tr
+        elif name == "simulate_cg":
+            # ["simulate_cg", clock plan, cgmap]: the library's driver loop on the coarse-grained system (the trajectory comes
+            # back spread over the cells of the original grid)
+            self.clock.set_plan(op[1])
+            script = self.get_script(sidx)
+            tr = self.st.simulate_script(script, eng, cgmap=list(op[2]))
+            self.global_size = 0
+            ev["t"] = tr.t.value.tobytes()
+            ev["data"] = tr.data.value.tobytes()
+            ev["t_unit"] = tr.t.units.sys["time"]
+            ev["data_unit"] = tr.data.units.sys["quantity"]
+            ev["nsamples"] = int(tr.nsamples())
         elif name == "simulate_api":
             # the top-level convenience function: builds its own RDScript from keyword arguments
             self.clock.set_plan(op[1])
